@@ -426,6 +426,16 @@ Section Walk.
       apply par_ret; [assumption|]. apply (OkO_upd o4); [exact K4|reflexivity|]. cbn. intros w ws H. eexists; exact H.
   Qed.
 
+  Lemma par_d48_step o c cs : OkO o -> CSame t c cs -> Par2 OkO c (d48_step o c) (d48_step o cs).
+  Proof.
+    intros K HC. unfold d48_step.
+    destruct (r_tlen o) as [[|l]|]; try (apply par_ret; assumption).
+    destruct (r_oti o); try (apply par_ret; assumption).
+    destruct (r_state o); try (apply par_ret; assumption).
+    destruct (r_writer o) eqn:Ew; try (apply par_ret; assumption).
+    apply par_complete; assumption.
+  Qed.
+
   Theorem par_or_attach fid files ioti o c cs : OkO o -> CSame t c cs ->
     Par2 (fun x => OkO (snd x)) c (or_attach E fid files ioti o c) (or_attach E fid files ioti o cs).
   Proof.
@@ -443,8 +453,12 @@ Section Walk.
     { apply (OkO_upd o); [exact K|reflexivity|]. cbn. intros w ws H. eexists; exact H. }
     pose proof (OkO_init_partition o1 K1) as K2.
     pose proof (par_init_writer (init_partition o1) c cs K2 HC) as (E3 & C3 & F3 & K3).
-    destruct (init_writer E (init_partition o1) c) as [o3 c3], (init_writer E (init_partition o1) cs) as [o3s cs3].
-    cbn [fst snd] in *. subst o3s. apply (par_frame _ c c3 _ _ F3).
+    destruct (init_writer E (init_partition o1) c) as [o3a c3a], (init_writer E (init_partition o1) cs) as [o3s cs3a].
+    cbn [fst snd] in *. subst o3s. apply (par_frame _ c c3a _ _ F3).
+    fold (d48_step o3a c3a). fold (d48_step o3a cs3a).
+    pose proof (par_d48_step o3a c3a cs3a K3 C3) as (E3b & C3b & F3b & K3b).
+    destruct (d48_step o3a c3a) as [o3 c3], (d48_step o3a cs3a) as [o3s cs3].
+    cbn [fst snd] in *. subst o3s. apply (par_frame _ c3a c3 _ _ F3b). clear K3 C3. rename K3b into K3, C3b into C3.
     pose proof (par_push_from_cache o3 c3 cs3 K3 C3) as (E4 & C4 & F4 & K4).
     destruct (push_from_cache E o3 c3) as [o4 c4], (push_from_cache E o3 cs3) as [o4s cs4].
     cbn [fst snd] in *. subst o4s. apply (par_frame _ c3 c4 _ _ F4).
